@@ -1064,10 +1064,12 @@ func (w *vWorld) op(ws []string) (string, bool) {
 		del := &MsgClientDel{Id: "1", Topic: w.realTopic(ws[2], w.asUidOf(s, kv)), What: "topic", Hard: kv["hard"] == "1"}
 		w.dispatch(s, &ClientComMessage{Del: del, Extra: w.extra(kv)})
 	case "fg":
-		// background session's timer fired
-		s.background = false
-		s.onBackgroundTimer()
-		w.pump()
+		// background session's timer fired (writeLoop: only a session which still is in the background reacts)
+		if s.background {
+			s.background = false
+			s.onBackgroundTimer()
+			w.pump()
+		}
 	case "unload":
 		// idle timeout of a topic (killTimer): the topic goes offline; the next request reloads it from the store
 		if t := globals.hub.topicGet(w.realTopic(ws[1], types.ZeroUid)); t != nil {
